@@ -230,10 +230,37 @@ def cases(max_steps):
     return st.fixed_dictionaries({"steps": st.lists(step, min_size=1, max_size=max_steps), "server": server, "sock_timeout": st.sampled_from([0.5, 1.0, 2.0])})
 
 
+ALPHABET = [
+    ["send", "hi"], ["recv"], ["recv_data_frame"], ["close", 1000, b"", 1], ["close", 3000, b"bye", 0.5], ["send_close", 1001, b"going"],
+    ["shutdown"], ["srv_close", 1000, b""], ["srv_eof"], ["srv_data", True], ["ping", b"p"], ["close", 65536, b"", 1],
+]
+POLICIES = [{"close": ["reply", 0.0]}, {"close": ["never"]}, {"close": ["reply", 0.4], "chatty": [0.2, 6]}]
+
+
+def enum_histories(max_len, shard, of):
+    import itertools
+
+    i = 0
+    for n in range(1, max_len + 1):
+        for hist in itertools.product(range(len(ALPHABET)), repeat=n):
+            i += 1
+            if i % of != shard:
+                continue
+            yield {"steps": [list(ALPHABET[k]) for k in hist], "server": POLICIES[i % len(POLICIES)], "sock_timeout": 1.0}
+
+
 def jobs(tier, seed):
     n, shards, steps = (1600, 8, 30) if tier == "quick" else (32000, 16, 50)
-    return [{"name": f"hyp-{i}", "kind": "hyp", "seed": seed * 1000 + i, "n": n // shards, "steps": steps} for i in range(shards)]
+    out = [{"name": f"hyp-{i}", "kind": "hyp", "seed": seed * 1000 + i, "n": n // shards, "steps": steps} for i in range(shards)]
+    L = 4 if tier == "quick" else 5
+    out += [{"name": f"enum-{i}", "kind": "enum", "len": L, "shard": i, "of": 16} for i in range(16)]
+    return out
 
 
 def run_job(job, coll):
-    hyp_run(coll, cases(job["steps"]), run_case, job["seed"], job["n"])
+    if job["kind"] == "enum":
+        for c in enum_histories(job["len"], job["shard"], job["of"]):
+            coll.check(c, run_case)
+        coll.exhaustive[f"all histories of length <= {job['len']} over a 12-operation alphabet (server policy rotating)"] = True
+    else:
+        hyp_run(coll, cases(job["steps"]), run_case, job["seed"], job["n"])
